@@ -2,8 +2,9 @@ SPECIFICATION Spec
 CONSTANTS
   TTL_A = 3
   TTL_R = 5
-  MaxClock = 5
-  MaxIds = 5
+  MaxClock = 6
+  MaxIds = 6
+  MaxTokenOnly = 1
   MaxSteps = 0
   Secrets = {0, 1}
   Findings = {}
